@@ -7,8 +7,9 @@
 (*                                                                         *)
 (*   Spec -> PickLen -> Fill* -> (TrimLoop)* -> Construct -> done          *)
 (*                                                                         *)
-(* Spec: min_len is the FIRST of {len_char_min = n, not_empty -> 1} in     *)
-(* written order (find_map), max_len the first len_char_max or min + 16;   *)
+(* Spec: min_len is the GREATEST of {len_char_min = n, not_empty -> 1}     *)
+(* (since the fix; before it the FIRST in written order, so a later larger *)
+(* minimum was shadowed), max_len the first len_char_max or min + 16;      *)
 (* lowercase / uppercase are ignored ("do not overlap with any rule").     *)
 (* DECLARATIVE (C09): the result is a value the constructor accepts, or an *)
 (* arbitrary::Error; never a panic, and the trim loop terminates.          *)
@@ -39,7 +40,8 @@ DeclSpace == UNION {{Decl(san, val) : san \in Perms(S), val \in Perms(V)} : S \i
 \* build_specification
 MinLikes(d) == SelectSeq(d.val, LAMBDA r : r.k \in {"len_char_min", "not_empty"})
 MaxLikes(d) == SelectSeq(d.val, LAMBDA r : r.k = "len_char_max")
-MinLen(d) == IF MinLikes(d) = <<>> THEN 0 ELSE (IF MinLikes(d)[1].k = "not_empty" THEN 1 ELSE MinLikes(d)[1].b)
+MinOf(r) == IF r.k = "not_empty" THEN 1 ELSE r.b
+MinLen(d) == IF MinLikes(d) = <<>> THEN 0 ELSE NMax({MinOf(MinLikes(d)[i]) : i \in DOMAIN MinLikes(d)})
 MaxLen(d) == IF MaxLikes(d) = <<>> THEN MinLen(d) + 16 ELSE MaxLikes(d)[1].b
 HasTrim(d) == \E i \in DOMAIN d.san : d.san[i].k = "trim"
 
